@@ -12,25 +12,12 @@ LEVEL = "exploration"
 RULE = ("Hypothesis-generated pushes: content size from a boundary table around chunk size c and maxdata m "
         "{0,1,c-1,c,c+1,2c,m-9,m-8,m-7,m,3.5c,..} U small ints U 1-3 MiB; maxdata from {4 KiB..1 MiB} U ints; device path (non-ASCII, up to ~1000 bytes); "
         "st_mode; mtime (0 and 32-bit); source in {temp file, BytesIO, temp directory with 1-4 files (cwd elsewhere or inside)}; callback in "
-        "{none, recording, raising Exception, raising a BaseException subclass, re-entering the device with stat() (sync)}; withheld sync OKAY; a second connect() (no close) to a device announcing another maxdata before the push; both APIs. Oracle: the simulator's sync service reassembles SEND/DATA/DONE; sizes judged per packet; "
+        "{none, recording, raising Exception, raising a BaseException subclass, re-entering the device with stat() (sync)}; withheld sync OKAY; connections established through the signature / public-key paths; a second connect() (no close) to a device announcing another maxdata before the push; both APIs. Oracle: the simulator's sync service reassembles SEND/DATA/DONE; sizes judged per packet; "
         "metamorphic: host packets with callback == without. Non-trivial: >=2 host WRTEs, or a directory, or a callback. Distinct = case hash.")
 ASSUMPTIONS = ["device simulator sync service per AOSP SYNC.TXT", "virtual clock for mtime=0"]
 
 
-def exact_fill_sizes(m, spec_len):
-    """File sizes for which a DATA record ends exactly at (or next to) the end of the maxdata-sized send buffer."""
-    c = sc.chunk_size_for(m)
-    out = []
-    for T in (m - 2, m - 1, m, m + 1, m + 2):
-        # buffer holds SEND record (8+spec_len) followed by k full DATA records (8+c each) and a last record of r bytes
-        k = max(0, (T - 8 - spec_len - 9) // (c + 8))
-        for kk in (k, k - 1):
-            if kk < 0:
-                continue
-            r = T - 8 - spec_len - kk * (c + 8) - 8
-            if 0 < r <= c:
-                out.append(kk * c + r)
-    return out or [m]
+exact_fill_sizes = sc.exact_fill_sizes
 
 
 @st.composite
@@ -60,15 +47,21 @@ def cases(draw):
     if draw(st.sampled_from([False] * 11 + [True])) and kind != "dir":
         dev["push_withhold"] = True
     ops = [op]
+    conn = {}
+    if draw(st.sampled_from([False] * 5 + [True])):
+        # the connection is established through the authentication paths (signature accepted, or all signatures rejected and the public key accepted)
+        amode = draw(st.sampled_from(["key", "pubkey"]))
+        dev["auth"] = {"mode": amode, "accept": "k1"}
+        conn = {"keys": [{"tag": "k0"}, {"tag": "k1"}], "auth_timeout_s": 1.0}
     if draw(st.sampled_from([False, False, False, True])):
         # the object is connected a second time (no close() in between) and the device now announces another maxdata:
         # the limits of the *current* connection apply to the push
         m1 = draw(sc.maxdata())
         dev["maxdata_by_connection"] = [m1, m]
         first = {"op": "push", "src": {"kind": "bytesio", "content": {"pat": b"1st", "n": draw(st.sampled_from([0, 5, 70000]))}}, "path": "/first", "mode": 0o100644, "mtime": 1, "cb": None}
-        ops = [first, {"op": "connect"}, op]
+        ops = [first, dict(conn, op="connect"), op]
     return {"api": draw(st.sampled_from(["sync", "async"])), "device": dev, "dev_tape": draw(sc.dev_tape(12)),
-            "transport": {"flavour": draw(sc.flavour())}, "connect": {}, "ops": ops,
+            "transport": {"flavour": draw(sc.flavour())}, "connect": conn, "ops": ops,
             "t0": draw(st.sampled_from([1000000.0, 1700000000.75, 4294967290.5]))}
 
 
